@@ -372,7 +372,8 @@ def gen_case(draw):
     top["comps"] = [draw(comp_filter(objs)) for _ in range(k)]
     if draw(st.integers(0, 5)) == 0:
         top["props"] = [draw(st.sampled_from([{"name": "VERSION"}, {"name": "CALSCALE"}, {"name": "CALSCALE", "is_not_defined": True}, {"name": "PRODID", "text_match": {"text": "xv", "collation": None, "negate": False}}]))]
-    return {"objects": [enc_body(o) for o in objs], "filter": top, "tz": draw(st.sampled_from(TZS)), "fe": draw(st.sampled_from(["wsgi", "aio"]))}
+    warm = {"name": "VCALENDAR", "comps": [draw(comp_filter(objs))]}
+    return {"objects": [enc_body(o) for o in objs], "filter": top, "warm": warm, "tz": draw(st.sampled_from(TZS)), "fe": draw(st.sampled_from(["wsgi", "aio"]))}
 
 
 def uses_time_range(cf):
@@ -387,7 +388,7 @@ def run_gen_case(case):
     objs = [body_of({"body": b}) for b in case["objects"]]
     flt = case["filter"]
     tz = ZoneInfo(case["tz"])
-    world = World(index_threshold=10**9)
+    world = World(index_threshold=None)  # the default configuration: the query index is built after 5 repetitions
     out = {"ok": True, "violation": None, "labels": [], "known": {}, "stats": {}}
     try:
         coll = "/user/calendars/q"
@@ -427,6 +428,23 @@ def run_gen_case(case):
                 out["violation"] = {"oracle": "calquery", "sig": f"report-failed:{(r.exc or str(r.status)).split('@')[-1].strip()[:50]}", "detail": f"calendar-query {json.dumps(flt)} answered {r.status} {r.exc or r.body[:300]!r}"}
             return out
         gotset = set(got)
+        # another query repeated past the indexing threshold first (the index then exists with other keys) ...
+        if case.get("warm"):
+            for rep in range(7):
+                query(world, "wsgi", coll, case["warm"], case["tz"], data=False)
+        # ... and the same request repeated past the threshold must keep giving the same answer
+        for rep in range(7):
+            r2 = query(world, case["fe"], coll, flt, case["tz"], data=False)
+            got2, _ = result_names(r2)
+            res2 = ("ok", tuple(sorted(got2))) if got2 is not None else ("error", (r2.exc or str(r2.status))[:60])
+            if res2 != ("ok", tuple(sorted(gotset))):
+                kf = findings.c10_known(flt, [res2, ("ok", tuple(sorted(gotset)))], ["repeated", "first"], 1, bodies)
+                if kf:
+                    out["known"][kf] = out["known"].get(kf, 0) + 1
+                    break
+                out["ok"] = False
+                out["violation"] = {"oracle": "calquery", "sig": f"answer-changes-with-repetition:{filter_shape(flt)}", "detail": f"calendar-query {json.dumps(flt)} (tz {case['tz']}): first answer {sorted(gotset)}, repetition {rep + 2} answers {res2}"}
+                return out
         asserted = set(bodies) - unasserted - skipped
         diff = (gotset ^ expected) & asserted
         for n in sorted(diff):
@@ -530,7 +548,7 @@ def main(tier, seed):
     res.assumptions = [
         "the RFC 4791 9.9 tables are reproduced in xv/filterref.py as data (trusted input)",
         "recurrence expansion is outside the check: objects with RRULE/RDATE/RECURRENCE-ID are not asserted under time-range filters",
-        "queries run with the index disabled (index_threshold=10^9); C10 covers the index path",
+        "grid queries run with the index disabled (index_threshold=10^9); generated cases run with the default threshold and are repeated 8 times (the answer must not change; C10 explores the index path in depth)",
         "i;unicode-casemap verdicts that depend on the case of non-ASCII letters are not asserted",
         "lattice instants avoid DST transitions",
     ]
